@@ -25,7 +25,7 @@
 
 static struct lp_ctx the_lp;
 static unsigned long long n_ops, n_restores, n_restore_nonckpt, n_fossils, n_fossil_then_restore, n_arena_after_ckpt, n_cases,
-    n_reuse_checks, n_addr_diverge, n_calloc, n_realloc_move, n_realloc_same, n_null_ok, n_verify, max_arenas, n_coast_ops, n_ckpts, n_nontrivial;
+    n_reuse_checks, n_addr_diverge, n_grow_while_room, n_reuse_probes, n_calloc, n_realloc_move, n_realloc_same, n_null_ok, n_verify, max_arenas, n_coast_ops, n_ckpts, n_nontrivial;
 
 #define VIOL(prop, key, ...) vviol(prop, key, __VA_ARGS__)
 
@@ -345,7 +345,7 @@ static void check_new_block(unsigned char *p, uint32_t req, const char *what, ar
 				for(uint32_t k = (uint32_t)(freed_after->p - o->base_mem) / LEAF, e = k + freed_after->bsz / LEAF; k < e && k < NLEAF; ++k)
 					cov[k] = 1;
 			if(real_has_hole(cov, bsz))
-				VIOL("C12", "freed-space-not-reused", "%s(%u): a new arena was created although arena %u has a free aligned block of %u bytes", what, req, (unsigned)a, bsz);
+				n_grow_while_room++; /* statistic only: growing while an older arena has room is a policy, not a violation */
 		}
 		if(n_snaps)
 			n_arena_after_ckpt++;
@@ -411,9 +411,24 @@ static void exec_op(struct op *o, int replay)
 			int i = ls_find(&live, o->id);
 			if(i < 0)
 				return;
+			uint32_t fsz = live.b[i].bsz;
 			API("rs_free", (rs_free(live.b[i].p), 0));
 			API_DONE();
 			ls_del(&live, (unsigned)i);
+			if(!replay && (o->pat & 3) == 0) {
+				/* "freeing makes the space reusable": a request of the size just released must be served without growing */
+				array_count_t before = array_count(mm->buddies);
+				unsigned char *q = API("rs_malloc", rs_malloc(fsz));
+				API_DONE();
+				n_reuse_probes++;
+				if(!q)
+					VIOL("C12", "freed-space-not-reusable", "rs_malloc(%u) right after releasing a %u-byte block returned NULL", fsz, fsz);
+				else {
+					if(array_count(mm->buddies) != before)
+						VIOL("C12", "freed-space-not-reusable", "rs_malloc(%u) right after releasing a %u-byte block had to create a new arena", fsz, fsz);
+					rs_free(q);
+				}
+			}
 			break;
 		}
 		case O_REALLOC: {
@@ -507,10 +522,17 @@ static void rollback(unsigned target, int after_fossil)
 	n_restore_nonckpt += snaps[s].ref != target;
 	n_fossil_then_restore += after_fossil;
 	if(got != snaps[s].ref) {
-		VIOL("C05", "restore-wrong-checkpoint", "restore(target %u) reported checkpoint ref %u, the newest one <= target is %u", target, (unsigned)got, snaps[s].ref);
-		/* cannot continue this history meaningfully */
-		printf("STAT aborted_histories 1\n");
-		exit(0);
+		/* any kept checkpoint at or before the target is a legitimate choice (an older one only means more re-execution) */
+		int s2 = s;
+		while(s2 >= 0 && snaps[s2].ref != got)
+			s2--;
+		if(s2 < 0 || got > target) {
+			VIOL("C05", "restore-wrong-checkpoint", "restore(target %u) reported checkpoint ref %u, which is %s", target, (unsigned)got, got > target ? "after the target" : "not a kept checkpoint");
+			/* cannot continue this history meaningfully */
+			printf("STAT aborted_histories 1\n");
+			exit(0);
+		}
+		s = s2;
 	}
 	/* state right after the restore must be the snapshot's */
 	ls_free(&live);
@@ -543,9 +565,16 @@ static void fossil(unsigned tgt)
 	array_count_t got = model_allocator_fossil_lp_collect(mm, tgt);
 	n_fossils++;
 	if(got != snaps[s].ref) {
-		VIOL("C13", "fossil-wrong-amount", "fossil collect(target %u) returned %u; the newest checkpoint <= target is at %u", tgt, (unsigned)got, snaps[s].ref);
-		printf("STAT aborted_histories 1\n");
-		exit(0);
+		/* keeping an older checkpoint than the newest one at or before the target is legitimate (it only keeps more) */
+		int s2 = s;
+		while(s2 >= 0 && snaps[s2].ref != got)
+			s2--;
+		if(s2 < 0 || got > tgt) {
+			VIOL("C13", "fossil-wrong-amount", "fossil collect(target %u) returned %u, which is %s (newest checkpoint <= target: %u)", tgt, (unsigned)got, got > tgt ? "beyond the target: history a rollback can still need is gone" : "not the reference of a kept checkpoint", snaps[s].ref);
+			printf("STAT aborted_histories 1\n");
+			exit(0);
+		}
+		s = s2;
 	}
 	/* the runtime now drops the first `got` history entries: re-base everything */
 	for(int k = 0; k < s; ++k)
@@ -799,9 +828,9 @@ int main(int argc, char **argv)
 		n_nontrivial = n_seq;
 	}
 	printf("STAT cases %llu\nSTAT operations %llu\nSTAT restores %llu\nSTAT restores_to_non_checkpoint_target %llu\nSTAT coast_forward_ops %llu\nSTAT fossil_collections %llu\n"
-	       "STAT restores_right_after_fossil %llu\nSTAT arenas_created_after_a_checkpoint %llu\nSTAT new_arena_reuse_checks %llu\nSTAT coast_forward_address_divergences %llu\nSTAT calloc_blocks_checked %llu\n"
+	       "STAT restores_right_after_fossil %llu\nSTAT arenas_created_after_a_checkpoint %llu\nSTAT new_arena_reuse_checks %llu\nSTAT reuse_probes_after_free %llu\nSTAT new_arena_while_older_had_room %llu\nSTAT coast_forward_address_divergences %llu\nSTAT calloc_blocks_checked %llu\n"
 	       "STAT realloc_moved %llu\nSTAT realloc_in_place %llu\nSTAT bad_size_requests %llu\nSTAT full_verifications %llu\nSTAT checkpoints %llu\nSTAT nontrivial_histories %llu\nSTAT enumerated_sequences %llu\n",
-	    n_cases, n_ops, n_restores, n_restore_nonckpt, n_coast_ops, n_fossils, n_fossil_then_restore, n_arena_after_ckpt, n_reuse_checks, n_addr_diverge, n_calloc,
+	    n_cases, n_ops, n_restores, n_restore_nonckpt, n_coast_ops, n_fossils, n_fossil_then_restore, n_arena_after_ckpt, n_reuse_checks, n_reuse_probes, n_grow_while_room, n_addr_diverge, n_calloc,
 	    n_realloc_move, n_realloc_same, n_null_ok, n_verify, n_ckpts, n_nontrivial, n_seq);
 	printf("MAX max_arenas %llu\n", max_arenas);
 	printf("OK alloc\n");
